@@ -58,6 +58,7 @@ def run(c: sym.Ctx, n_workers: int, depth: int, max_fails: Any, slow_exit: bool 
             self.started = False
             self.term = False
             self.joined = False
+            self.exitcode: Optional[int] = None
             tr.procs.append(self)
 
         def start(self) -> None:
@@ -80,6 +81,8 @@ def run(c: sym.Ctx, n_workers: int, depth: int, max_fails: Any, slow_exit: bool 
             if timeout is None:
                 if self.alive and not self.term:
                     rec("join_would_block_forever", self.slot, self.pid)
+                if self.alive:
+                    self.exitcode = -15
                 self.alive = False
                 self.joined = True
             else:
@@ -87,6 +90,8 @@ def run(c: sym.Ctx, n_workers: int, depth: int, max_fails: Any, slow_exit: bool 
                 if self.alive and slow_exit and c.flag("exits_within_join_timeout") is False:
                     rec("join_timed_out", self.slot, self.pid)
                 else:
+                    if self.alive:
+                        self.exitcode = -15
                     self.alive = False
                     self.joined = True
 
@@ -177,6 +182,10 @@ def run(c: sym.Ctx, n_workers: int, depth: int, max_fails: Any, slow_exit: bool 
         for i, w in enumerate(list(workers)):
             if w.alive and c.flag(f"dies{i}"):
                 w.alive = False
+                # a worker may die with any status, including 0 (e.g. it returned cleanly); one choice per run keeps the tree small
+                if "exit_status" not in manager:
+                    manager["exit_status"] = c.choose([1, 0], "exit_status_of_deaths")
+                w.exitcode = manager["exit_status"]
                 rec("env", "death", w.slot, w.pid)
         opt = SIGNAL_OPTS[first] if (tr.tick == 1 and first is not None) else c.choose(SIGNAL_OPTS, "signal")
         for s in opt.split("+"):
